@@ -2032,7 +2032,8 @@ def r04_3_registrations(ctx):
     r = ctx.rule('R04.3', 'constructors are registered only on yatiml loader classes, only yatiml constructor objects, only '
                           'under "!<ClassName>" tags; no multi/path/implicit registration, no direct table stores', floor=4)
     ctor_classes = {c.name for c in P.module('yatiml.constructors').classes.values()}
-    banned = {'add_multi_constructor', 'add_path_resolver', 'add_implicit_resolver', 'add_multi_representer'}
+    # (add_multi_representer is a dump-side registration: who it is registered *on* is R11.3's business, it constructs nothing)
+    banned = {'add_multi_constructor', 'add_path_resolver', 'add_implicit_resolver'}
     tables = {'yaml_constructors', 'yaml_multi_constructors'}
     for fi in P.yatiml_functions():
         f = None
